@@ -25,7 +25,8 @@ An exhausted stdin raises EOFError from input(): a rejected answer without a fol
 Also a history runner for C09 (same protocol as runners/history.py, which it delegates to for the ordinary steps):
   python interactive_route.py <sandbox>                  one JSON step per line on stdin, one JSON line {"result": ..} each
   python interactive_route.py <sandbox> --once <step>    a single step
-extra steps: {"op": "icreate", ...} (interactive create through the in-process driver), {"op": "cfgcreate", ...} (CLI
+extra steps: {"op": "edit", "fields": {...}} (any of the six editable fields, library or CLI; result = the metafile's bytes),
+{"op": "icreate", ...} (interactive create through the in-process driver), {"op": "cfgcreate", ...} (CLI
 `create --config --config-path <ini>`), {"op": "iedit"}, {"op": "irecheck"}; execute_extended: "verbose" (-v), "hook", "target",
 {"op": "mkbatch"}, {"op": "rebuild-batch"}.
 """
@@ -153,7 +154,8 @@ def execute(sb, step):
     from runners import history as H
     op = step["op"]
     if op in ("mkbatch", "rebuild-batch") or (op in ("create", "recheck", "edit", "info", "magnet", "rebuild")
-                                              and any(step.get(k) for k in ("verbose", "hook", "target"))):
+                                              and any(step.get(k) for k in ("verbose", "hook", "target"))) \
+            or (op == "edit" and "fields" in step):
         return execute_extended(sb, step)
     if op not in ("icreate", "cfgcreate", "iedit", "irecheck"):
         return H.execute(sb, step)
@@ -274,6 +276,28 @@ def execute_extended(sb, step):
                     res.update(hook_messages=len(messages), hook_first=messages[:2],
                                hook_digest=hashlib.sha256(json.dumps(messages).encode()).hexdigest())
                 return res
+            if op == "edit" and "fields" in step:
+                # any of the six editable fields (value: str, list of str, "" = clear (library only), true for private); the
+                # result is the metafile BYTE FOR BYTE (key order included)
+                fields = step["fields"]
+                if via_cli:
+                    flag = {"comment": "--comment", "source": "--source", "announce": "--tracker", "url-list": "--web-seed",
+                            "httpseeds": "--http-seed"}
+                    argv = pre + ["edit", mf]
+                    for k, val in fields.items():
+                        if k == "private":
+                            argv += ["--private"] if val else []
+                        elif k in ("comment", "source"):
+                            argv += [flag[k], val if isinstance(val, str) else " ".join(val)]
+                        else:
+                            argv += [flag[k]] + (list(val) if isinstance(val, list) else val.split())
+                    cli(argv)
+                else:
+                    from torrentfile.edit import edit_torrent
+                    edit_torrent(mf, dict(fields))
+                raw = open(mf, "rb").read() if os.path.isfile(mf) else None
+                return {"meta": H.canon_meta(mf), "raw_sha256": None if raw is None else hashlib.sha256(raw).hexdigest(),
+                        "raw_len": None if raw is None else len(raw)}
             if op == "edit":
                 cli(pre + ["edit", mf, "--comment", step.get("comment", "c")])
                 return {"meta": H.canon_meta(mf)}
